@@ -12,11 +12,16 @@ Section Sim.
   Hypothesis Hcur : forall a b, R a b -> op_cur o1 a = op_cur o2 b.
   Hypothesis Hnext : forall a b, R a b -> op_cur o1 a <> None -> R (op_next o1 a) (op_next o2 b).
   Hypothesis Hprev : forall a b, R a b -> op_cur o1 a <> None -> R (op_prev o1 a) (op_prev o2 b).
-  Hypothesis Hfirst : forall a b, R a b -> R (op_first o1 a) (op_first o2 b).
-  Hypothesis Hlast : forall a b, R a b -> R (op_last o1 a) (op_last o2 b).
-  Hypothesis Hseek : forall t a b, o_min o = Some t -> R a b -> R (op_seek o1 t a) (op_seek o2 t b).
-  Hypothesis Hsfp : forall t a b, o_max o = Some t -> R a b ->
-                                   R (op_seek_for_prev o1 t a) (op_seek_for_prev o2 t b).
+  (* each positioning operation only has to be simulated where the constructor uses it *)
+  Hypothesis Hfirst : (o_reverse o = false /\ o_min o = None) \/ o_reverse o = true ->
+                      forall a b, R a b -> R (op_first o1 a) (op_first o2 b).
+  Hypothesis Hlast : o_reverse o = true /\ o_max o = None ->
+                     forall a b, R a b -> R (op_last o1 a) (op_last o2 b).
+  Hypothesis Hseek : o_reverse o = false ->
+                     forall t a b, o_min o = Some t -> R a b -> R (op_seek o1 t a) (op_seek o2 t b).
+  Hypothesis Hsfp : o_reverse o = true ->
+                    forall t a b, o_max o = Some t -> R a b ->
+                                  R (op_seek_for_prev o1 t a) (op_seek_for_prev o2 t b).
 
   Lemma sim_valid a b s : R a b -> g_valid o1 (mkgw a o s) = g_valid o2 (mkgw b o s).
   Proof. intro H. unfold g_valid. cbn [gw_cur gw_opts gw_step]. now rewrite (Hcur a b H). Qed.
@@ -41,9 +46,9 @@ Section Sim.
 
   Lemma sim_init legacy a b : R a b -> R (g_init_seek o1 legacy o a) (g_init_seek o2 legacy o b).
   Proof.
-    intro H. unfold g_init_seek. destruct (o_reverse o); simpl.
-    - destruct (o_max o) as [mx|] eqn:Hmx; auto.
-      pose proof (Hsfp mx a b eq_refl H) as H1.
+    intro H. unfold g_init_seek. destruct (o_reverse o) eqn:Hrev; simpl.
+    - destruct (o_max o) as [mx|] eqn:Hmx; [|apply Hlast; auto].
+      pose proof (Hsfp eq_refl mx a b eq_refl H) as H1.
       set (a1 := op_seek_for_prev o1 mx a) in *. set (b1 := op_seek_for_prev o2 mx b) in *.
       assert (H2 : R (if g_cvalid o1 a1 then a1
                       else match g_key_cmp o1 (op_first o1 a1) mx with
@@ -54,15 +59,15 @@ Section Sim.
                            | Some Gt => if legacy then op_first o2 b1 else op_prev o2 (op_first o2 b1)
                            | _ => op_first o2 b1 end)).
       { rewrite <- (sim_cvalid a1 b1 H1). destruct (g_cvalid o1 a1); auto.
-        pose proof (Hfirst a1 b1 H1) as Hf. rewrite <- (sim_key_cmp _ _ mx Hf).
+        pose proof (Hfirst (or_intror eq_refl) a1 b1 H1) as Hf. rewrite <- (sim_key_cmp _ _ mx Hf).
         destruct (g_key_cmp o1 (op_first o1 a1) mx) as [[| |]|] eqn:E; auto.
         destruct legacy; auto. apply Hprev; auto. eapply key_cmp_cur; eauto. }
       destruct (has_flag (o_type o) range_ropen); auto.
       rewrite <- (sim_key_cmp _ _ mx H2).
       match goal with |- R (match ?k with _ => _ end) _ => destruct k as [r|] eqn:E end; auto.
       destruct (geb_cmp r); auto. apply Hprev; auto. eapply key_cmp_cur; eauto.
-    - destruct (o_min o) as [mn|] eqn:Hmn; auto.
-      pose proof (Hseek mn a b eq_refl H) as H1.
+    - destruct (o_min o) as [mn|] eqn:Hmn; [|apply Hfirst; auto].
+      pose proof (Hseek eq_refl mn a b eq_refl H) as H1.
       destruct (has_flag (o_type o) range_lopen); auto.
       rewrite <- (sim_key_cmp _ _ mn H1).
       destruct (g_key_cmp o1 (op_seek o1 mn a) mn) as [r|] eqn:E; auto.
@@ -101,14 +106,16 @@ Section Sim.
   Qed.
 
   Lemma sim_cops : forall l started a b, R a b ->
+    (forall a b, R a b -> R (op_first o1 a) (op_first o2 b)) ->
+    (forall a b, R a b -> R (op_last o1 a) (op_last o2 b)) ->
     (forall t a b, R a b -> R (op_seek o1 t a) (op_seek o2 t b)) ->
     (forall t a b, R a b -> R (op_seek_for_prev o1 t a) (op_seek_for_prev o2 t b)) ->
     g_cops_run o1 started a l = g_cops_run o2 started b l.
   Proof.
-    induction l as [|x r IH]; intros started a b H Hs Hp; simpl; auto.
+    induction l as [|x r IH]; intros started a b H Hf Hl Hs Hp; simpl; auto.
     destruct x as [| |t|t| |]; simpl.
-    - rewrite (Hcur _ _ (Hfirst a b H)). f_equal. apply IH; auto.
-    - rewrite (Hcur _ _ (Hlast a b H)). f_equal. apply IH; auto.
+    - rewrite (Hcur _ _ (Hf a b H)). f_equal. apply IH; auto.
+    - rewrite (Hcur _ _ (Hl a b H)). f_equal. apply IH; auto.
     - rewrite (Hcur _ _ (Hs t a b H)). f_equal. apply IH; auto.
     - rewrite (Hcur _ _ (Hp t a b H)). f_equal. apply IH; auto.
     - rewrite <- (sim_cvalid a b H). destruct (started && g_cvalid o1 a) eqn:E; simpl.
@@ -205,10 +212,10 @@ Proof.
   - intros a b [H Hk] Hc. simpl in *. split; [|exact Hk]. apply rrel_prev; auto.
     destruct (rrel_cur _ _ H) as [H1 _]. unfold c_valid. unfold c_cur in H1.
     destruct (c_pos b); auto; try congruence.
-  - intros a b [H Hk]. simpl. split; [apply rrel_first; apply (rrel_view _ _ H)|exact Hk].
-  - intros a b [H Hk]. simpl. split; [apply rrel_last; apply (rrel_view _ _ H)|exact Hk].
-  - intros t a b _ [H Hk]. simpl. split; [apply rrel_seek; apply (rrel_view _ _ H)|exact Hk].
-  - intros t a b _ [H Hk]. simpl. split; [apply rrel_seek_for_prev; auto; apply (rrel_view _ _ H)|exact Hk].
+  - intros _ a b [H Hk]. simpl. split; [apply rrel_first; apply (rrel_view _ _ H)|exact Hk].
+  - intros _ a b [H Hk]. simpl. split; [apply rrel_last; apply (rrel_view _ _ H)|exact Hk].
+  - intros _ t a b _ [H Hk]. simpl. split; [apply rrel_seek; apply (rrel_view _ _ H)|exact Hk].
+  - intros _ t a b _ [H Hk]. simpl. split; [apply rrel_seek_for_prev; auto; apply (rrel_view _ _ H)|exact Hk].
   - split; auto. unfold rrel, r_new, c_wf. simpl. auto.
 Qed.
 
@@ -336,14 +343,68 @@ Section Prefix.
     - intros a b H. simpl. now apply prel_cur.
     - intros a b H _. simpl. now apply prel_next.
     - intros a b H _. simpl. now apply prel_prev.
-    - intros a b H. simpl. now apply prel_first.
-    - intros a b H. simpl. now apply prel_last.
-    - intros t a b Ht H. simpl. rewrite Hmin in Ht. injection Ht as <-. now apply prel_seek.
-    - intros t a b Ht H. simpl. rewrite Hmax in Ht. injection Ht as <-. apply prel_seek_for_prev; auto.
+    - intros _ a b H. simpl. now apply prel_first.
+    - intros _ a b H. simpl. now apply prel_last.
+    - intros _ t a b Ht H. simpl. rewrite Hmin in Ht. injection Ht as <-. now apply prel_seek.
+    - intros _ t a b Ht H. simpl. rewrite Hmax in Ht. injection Ht as <-. apply prel_seek_for_prev; auto.
     - unfold prel, p_new. rewrite Hmin, Hmax. simpl. repeat split; auto.
       unfold ub. now destruct (has_flag (o_type o) range_ropen).
   Qed.
 End Prefix.
+
+(* forward reads only seek with Min: it is enough that every key of the range carries Min's prefix, whatever
+   Max is (FULLSCAN of a table: Min = type|table|':' , Max = type|table|';') *)
+Section PrefixForward.
+  Variables (m : smap) (o : iter_opts) (mn : bytes).
+  Hypothesis Hfwd : o_reverse o = false.
+  Hypothesis Hmin : o_min o = Some mn.
+  Hypothesis Hin : forall k, in_range o k = true -> pfx k = pfx mn.
+  Hypothesis Hs : ksorted m.
+
+  Let bv : smap := engine_view true (o_min o) (o_max o) (o_type o) m.
+  Let V : smap := filter (same_pfx (pfx mn)) bv.
+
+  Definition prelf (pc : pcursor) (c : cursor) : Prop :=
+    p_bv pc = bv /\ c_view c = V /\ c_pos (p_cur pc) = c_pos c.
+
+  Lemma range_query_Vf : range_query V o = range_query m o.
+  Proof.
+    unfold range_query. destruct (o_offset o <? 0); auto.
+    assert (filter (fun e => in_range o (fst e)) V = filter (fun e => in_range o (fst e)) m) as ->; auto.
+    unfold V, bv, engine_view. rewrite <- !filter_andb. apply filter_ext. intros [k v]. simpl.
+    destruct (in_range o k) eqn:E; [|now rewrite !andb_false_r].
+    rewrite (in_range_in_bounds o k E). simpl. rewrite andb_true_r. unfold same_pfx. simpl.
+    apply bytes_eqb_eq. now apply Hin.
+  Qed.
+
+  Lemma prefix_forward_correct_section :
+    engine_range_limit false KPrefix m o = Some (range_query m o).
+  Proof.
+    unfold engine_range_limit.
+    rewrite (sim_wrap prefix_ops ideal_ops prelf o) with (b := mkcur V CInv).
+    - rewrite ideal_view_correct; [now rewrite range_query_Vf| |].
+      + unfold V, bv. apply ssorted_filter. now apply engine_view_sorted.
+      + apply Nat.lt_succ_r. unfold V, bv, engine_view.
+        etransitivity; [apply filter_length_le|apply filter_length_le].
+    - intros a b (_ & _ & H). simpl. unfold c_cur. now rewrite H.
+    - intros a b (H1 & H2 & H3) _. simpl. unfold prelf, p_next, p_with, c_next. simpl. repeat split; auto.
+      now rewrite H3.
+    - intros a b (H1 & H2 & H3) _. simpl. unfold prelf, p_prev, p_with, c_prev. simpl. repeat split; auto.
+      now rewrite H3.
+    - intros [[_ Hn]|Hr]; [rewrite Hmin in Hn; discriminate|rewrite Hfwd in Hr; discriminate].
+    - intros [Hr _]. rewrite Hfwd in Hr. discriminate.
+    - intros _ t a b Ht (H1 & H2 & H3). rewrite Hmin in Ht. injection Ht as <-. simpl.
+      unfold prelf, p_seek, p_with. simpl. repeat split; auto. rewrite H1, H2. reflexivity.
+    - intros Hr. rewrite Hfwd in Hr. discriminate.
+    - unfold prelf, p_new. simpl. repeat split; auto.
+  Qed.
+End PrefixForward.
+
+Theorem prefix_forward_correct m o mn :
+  ksorted m -> o_reverse o = false -> o_min o = Some mn ->
+  (forall k, in_range o k = true -> pfx k = pfx mn) ->
+  engine_range_limit false KPrefix m o = Some (range_query m o).
+Proof. intros Hs Hf Hm Hi. now apply (prefix_forward_correct_section m o mn). Qed.
 
 Theorem prefix_correct m o :
   ksorted m -> prefix_local o = true -> engine_range_limit false KPrefix m o = Some (range_query m o).
